@@ -85,6 +85,12 @@ type Op struct {
 	// read options (get, query, scan, batchget): they may narrow what THIS call returns, never what is stored
 	AttrsToGet []string `json:"attrstoget,omitempty"` // legacy AttributesToGet
 	Consistent bool     `json:"consistent,omitempty"` // ConsistentRead
+	// ConsistentFalse: send ConsistentRead = false explicitly (a pointer to false, not nil)
+	ConsistentFalse bool `json:"consistentfalse,omitempty"`
+	// RetVal: the raw ReturnValues of PutItem / DeleteItem ("UPDATED_OLD", "ALL_NEW" ...: values only UpdateItem knows)
+	RetVal string `json:"retval,omitempty"`
+	// Expected: the legacy "Expected" parameter of a write in its short form (attribute = value)
+	Expected val.Item `json:"expected,omitempty"`
 	// CondSet: send ConditionExpression even when Cond is empty or blank (a pointer to that text, not nil)
 	CondSet bool `json:"condset,omitempty"`
 	// DoneCtx: make the call with a context that is already done ("cancelled", "expired")
@@ -139,6 +145,7 @@ const (
 	OpEmulate     = "emulate"
 	OpForceOn     = "forceon"
 	OpForceOff    = "forceoff"
+	OpSetMetrics  = "setmetrics" // helper SetItemCollectionMetrics (an entry for Table when Table is set, none otherwise)
 )
 
 // IndexDesc is the normalised description of an index.
